@@ -177,4 +177,20 @@ Definition s_poly_solve (coeffs_ : (list (T CA))) (refine_ : bool) : res (list (
            else (Ok (poly_roots_, its_, a_)) in
        Ok poly_roots_).
 
+(* src/polynomial/mod.rs : impl Polynomial < f64 > :: fn roots *)
+Definition s_roots_f64 (self_ : (list (T A))) (refine_ : bool) : res (list (T CA)) :=
+  let coeffs_ := (repeat (@zero CA) (length self_)) in
+  let* coeffs_ := for_ 0 (length self_) (fun i_ (coeffs_ : (list (T CA))) =>
+          let* x1 := rd self_ i_ in
+          upd coeffs_ i_ (mkk RA x1 (@zero A))) coeffs_ in
+  (let* r := poly_solve RA coeffs_ refine_ in Ok (fst r)).
+
+(* src/polynomial/mod.rs : impl Polynomial < Cmplx > :: fn roots *)
+Definition s_roots_cplx (self_ : (list (T CA))) (refine_ : bool) : res (list (T CA)) :=
+  let coeffs_ := (repeat (@zero CA) (length self_)) in
+  let* coeffs_ := for_ 0 (length self_) (fun i_ (coeffs_ : (list (T CA))) =>
+          let* x1 := rd self_ i_ in
+          upd coeffs_ i_ x1) coeffs_ in
+  (let* r := poly_solve RA coeffs_ refine_ in Ok (fst r)).
+
 End SrcRoots.
